@@ -35,11 +35,20 @@ type Config struct {
 	// TypoAll: with TypoSubs, EVERY punctuation of the typographer gets a substitution of its
 	// own (a map with eleven entries: whatever one entry does to another shows in some order of
 	// the map's iteration)
-	TypoAll    bool   `json:"typographer_all_subs,omitempty"`
-	LinkifyOpt string `json:"linkify_opt,omitempty"` // "", "protocols", "regexp" (only with GFM)
-	Unsafe     bool   `json:"unsafe,omitempty"`
-	XHTML      bool   `json:"xhtml,omitempty"`
-	HardWraps  bool   `json:"hardwraps,omitempty"`
+	TypoAll bool `json:"typographer_all_subs,omitempty"`
+	// TypoShort: with TypoSubs, the substitutions are the typographic characters themselves as
+	// raw UTF-8 (2-3 bytes each, given as []byte cut from ONE table of the caller's), not entities
+	TypoShort bool `json:"typographer_short_subs,omitempty"`
+	// ParserLists: the parser is assembled by the caller from the built-in lists instead of
+	// left to goldmark.New: "shared-base" - every instance built by this process passes the SAME
+	// base slice (built once, with spare capacity, as append(DefaultInlineParsers(), x) leaves
+	// it) to parser.WithInlineParsers; "no-rawhtml" - the list returned by DefaultInlineParsers()
+	// is edited in place (util.PrioritizedSlice.Remove) before it is passed on
+	ParserLists string `json:"parser_lists,omitempty"`
+	LinkifyOpt  string `json:"linkify_opt,omitempty"` // "", "protocols", "regexp" (only with GFM)
+	Unsafe      bool   `json:"unsafe,omitempty"`
+	XHTML       bool   `json:"xhtml,omitempty"`
+	HardWraps   bool   `json:"hardwraps,omitempty"`
 	// ErrRenderer: the caller registers node renderers of its own (thematic break, fenced code
 	// block, emphasis) that, unlike the built-in ones, look at the result of their writes and
 	// return the error: Render's early-return exit path ("an early return on a node-renderer
@@ -76,8 +85,12 @@ func (c Config) Key() string {
 		b.WriteString("optsvia=" + c.OptsVia + ",")
 	}
 	f(c.Typographer, "typographer")
-	f(c.Typographer && c.TypoSubs && !c.TypoAll, "typosubs")
-	f(c.Typographer && c.TypoSubs && c.TypoAll, "typosubs=all")
+	f(c.Typographer && c.TypoSubs && !c.TypoAll && !c.TypoShort, "typosubs")
+	f(c.Typographer && c.TypoSubs && c.TypoAll && !c.TypoShort, "typosubs=all")
+	f(c.Typographer && c.TypoSubs && c.TypoShort, "typosubs=short")
+	if c.ParserLists != "" {
+		b.WriteString("parserlists=" + c.ParserLists + ",")
+	}
 	if c.GFM && c.LinkifyOpt != "" {
 		b.WriteString("linkify=" + c.LinkifyOpt + ",")
 	}
@@ -209,7 +222,15 @@ func (c Config) Build() goldmark.Markdown {
 		}
 	}
 	if c.Typographer {
-		if c.TypoSubs && c.TypoAll {
+		if c.TypoSubs && c.TypoShort {
+			// one table of the caller's, the values cut from it
+			t := []byte("\u2018\u2019\u201c\u201d\u2013\u2014\u2026\u00ab\u00bb\u2019")
+			cut := func(i, n int) []byte { return t[i : i+n] }
+			exts = append(exts, extension.NewTypographer(extension.WithTypographicSubstitutions(map[extension.TypographicPunctuation][]byte{
+				extension.LeftSingleQuote: cut(0, 3), extension.RightSingleQuote: cut(3, 3), extension.LeftDoubleQuote: cut(6, 3), extension.RightDoubleQuote: cut(9, 3),
+				extension.EnDash: cut(12, 3), extension.EmDash: cut(15, 3), extension.Ellipsis: cut(18, 3), extension.LeftAngleQuote: cut(21, 2),
+				extension.RightAngleQuote: cut(23, 2), extension.Apostrophe: cut(25, 3)})))
+		} else if c.TypoSubs && c.TypoAll {
 			exts = append(exts, extension.NewTypographer(extension.WithTypographicSubstitutions(map[extension.TypographicPunctuation]string{
 				extension.LeftSingleQuote: "&sbquo;", extension.RightSingleQuote: "&rsquo;<!--r-->", extension.LeftDoubleQuote: "&laquo;", extension.RightDoubleQuote: "&raquo;",
 				extension.EnDash: "&ndash;<!--n-->", extension.EmDash: "&mdash;<!--m-->", extension.Ellipsis: "&hellip;<!--e-->", extension.LeftAngleQuote: "&lsaquo;",
@@ -242,7 +263,20 @@ func (c Config) Build() goldmark.Markdown {
 	if c.HeadingAttr {
 		popts = append(popts, parser.WithHeadingAttribute())
 	}
-	opts := []goldmark.Option{goldmark.WithExtensions(exts...)}
+	var opts []goldmark.Option
+	switch c.ParserLists {
+	case "":
+	case "shared-base":
+		opts = append(opts, goldmark.WithParser(parser.NewParser(parser.WithBlockParsers(parser.DefaultBlockParsers()...),
+			parser.WithInlineParsers(sharedInlineBase...), parser.WithParagraphTransformers(parser.DefaultParagraphTransformers()...))))
+	case "no-rawhtml":
+		ips := util.PrioritizedSlice(parser.DefaultInlineParsers()).Remove(parser.NewRawHTMLParser())
+		opts = append(opts, goldmark.WithParser(parser.NewParser(parser.WithBlockParsers(parser.DefaultBlockParsers()...),
+			parser.WithInlineParsers(ips...), parser.WithParagraphTransformers(parser.DefaultParagraphTransformers()...))))
+	default:
+		panic("bad parser_lists " + c.ParserLists)
+	}
+	opts = append(opts, goldmark.WithExtensions(exts...))
 	if len(popts) > 0 {
 		opts = append(opts, goldmark.WithParserOptions(popts...))
 	}
@@ -272,6 +306,12 @@ func (c Config) Build() goldmark.Markdown {
 	}
 	return goldmark.New(opts...)
 }
+
+// sharedInlineBase: the one base list every "shared-base" instance of this process is built
+// from, as a caller keeps it: the default inline parsers plus one more entry (a second, lower
+// ranked registration of the auto link parser, which changes nothing), with the spare capacity
+// append leaves behind.
+var sharedInlineBase = append(parser.DefaultInlineParsers(), util.Prioritized(parser.NewAutoLinkParser(), 990))
 
 // footnotePrefixFn: a pure function of the document the node belongs to, as a per-page prefix
 // is, that differs between most documents: derived from the number of top-level blocks and
@@ -333,6 +373,7 @@ func genConfig(r *Rng, mode string) Config {
 	if c.Typographer && ro.Chance(1, 4) {
 		c.TypoSubs = true
 		c.TypoAll = ro.Split("typo-all").Chance(1, 2)
+		c.TypoShort = ro.Split("typo-short").Chance(1, 3)
 	}
 	c.AutoID = r.Chance(1, 2)
 	c.Attribute = r.Chance(1, 3)
@@ -347,6 +388,9 @@ func genConfig(r *Rng, mode string) Config {
 	c.ExtHTMLOpts = (c.GFM || c.Footnote) && r4.Chance(1, 5)
 	if r4.Chance(1, 6) {
 		c.HTMLWriter = pick(r4, []string{"escaped", "own"})
+	}
+	if r5 := r.Split("parser-lists"); r5.Chance(1, 8) {
+		c.ParserLists = pick(r5, []string{"shared-base", "shared-base", "no-rawhtml"})
 	}
 	if mode == "c15" {
 		c.AutoID = true
@@ -401,6 +445,7 @@ func configVariant(r *Rng, c Config, c15 bool) Config {
 			if c.Typographer {
 				v.TypoSubs = !v.TypoSubs
 				v.TypoAll = v.TypoSubs && r.Chance(1, 2)
+				v.TypoShort = v.TypoSubs && r.Chance(1, 3)
 			}
 		case 3:
 			if c.GFM {
